@@ -1,9 +1,21 @@
 ------------------------------ MODULE MC_RtrWire ------------------------------
 EXTENDS RtrWire, Json
+\* quick: the two stream readers and, of the 27 fixed-size readers, every kind of reader on PDUs of every size; thorough: all
+QuickEntries == StreamEntries \cup {<<"t", "k0">>, <<"t", "k3">>, <<"t", "k8">>, <<"t", "k4">>, <<"t", "k71">>,
+                                          <<"y", "k0">>, <<"y", "k2">>, <<"y", "k6">>, <<"y", "k70">>, <<"y", "k71">>,
+                                          <<"p", "k1">>, <<"p", "k3">>, <<"p", "k4">>, <<"p", "k70">>}
+\* truncation points: quick = every PDU size and its neighbours; thorough = every byte
+QuickAvails == {0, 3, 7, 8, 9, 11, 12, 13, 16, 19, 20, 21, 23, 24, 25, 31, 32, 33, 36, 37}
+AllAvails == 0..42
+AllEntries == StreamEntries \cup ReaderEntries
 \* expected verdict for the case of this behaviour, emitted once per case (initial states)
 Verdict == LET n == Need(entry, type, ver, len) IN
            IF avail < 8 \/ n = ErrN THEN "err" ELSE IF avail >= 8 + n THEN "ok" ELSE "err"
-Emit == (got = 0 /\ phase = "hdr" /\ zero = 0) =>
-          PrintT(<<"REPLAY", ToJson([op |-> "read", entry |-> entry, type |-> type, ver |-> ver, len |-> len, avail |-> avail,
-                     verdict |-> Verdict, bound |-> IF len > 8 THEN len ELSE 8])>>)
+\* entries as strings for the harness: "payload", "skip", "t0" .. "p71"
+EntryName == IF entry \in StreamEntries THEN entry[1] ELSE entry[1] \o SubSeq(entry[2], 2, Len(entry[2]))
+\* one line per case; the open-stream variant is replayed for the cases the available bytes decide (the others wait, rightly)
+Emit == (got = 0 /\ phase = "hdr" /\ zero = 0 /\ (open => Decided)) =>
+          PrintT(<<"REPLAY", ToJson([op |-> "read", entry |-> EntryName, type |-> type, ver |-> ver, len |-> len, avail |-> avail, open |-> open,
+                     verdict |-> Verdict, eat |-> IF Verdict = "ok" THEN 8 + Need(entry, type, ver, len) ELSE 0,
+                     bound |-> IF len > 8 THEN len ELSE 8])>>)
 =============================================================================
